@@ -32,7 +32,7 @@ TRUSTED = ['xarray isel / where / to_netcdf / open_mfdataset and netCDF4 round-t
            'the clip mask itself (C07) is taken as given: the model is fed the content of the mask dataset emsarray produced']
 ASSUMPTIONS = ['file-level behaviour of the clip (temporary netCDF files, lazy loading) is runtime: compared, not proved']
 
-FILL = {'f8': 'm', 'i4': 'u', 'i4fill': 'm', 'i4missing': 'm', 'i4fill0': 'm'}
+FILL = {'f8': 'm', 'f4': 'm', 'i4': 'u', 'i8': 'u', 'u4': 'u', 'i4fill': 'm', 'i4missing': 'm', 'i4fill0': 'm'}
 
 
 def tag_str(da, dtype: str) -> str:
@@ -241,7 +241,7 @@ def make_recipe(ctx, k):
             kw['bounds_as'] = 'vars'
     recipe = G.random_recipe(rng, conv, ctx.tier, **kw)
     return G.attach_vars(rng, recipe, n_vars=3, max_extra=1, with_nan=True,
-                         dtypes=('f8', 'f8', 'i4', 'i4fill', 'i4missing', 'i4fill0'))
+                         dtypes=('f8', 'f8', 'f4', 'i4', 'i8', 'u4', 'i4fill', 'i4missing', 'i4fill0'))
 
 
 def examine(ctx, recipe, items) -> None:
